@@ -134,3 +134,21 @@ From TrV Require Import Proofs.EmitTie.
 Theorem C01_emit_is_code : forall d p bestdep js tmp, Forall seq_ok js -> emit d p bestdep js = emit_code d p bestdep js tmp.
 Proof. exact emit_skel_tie. Qed.
 Print Assumptions C01_emit_is_code.
+
+(* tie to the source, stage 3c: the journey rebuild of reverseJourneyStep (declarations, the loop that follows the exit
+   connections to the next stop's label, the access / egress pushes) is read from reverse_journey.cpp AS IT IS NOW by
+   tools/gen_loops.py (gen/Rebuild.v) and executed by the interpreter of Rebuild.v; the model computes the same *)
+Require Import TrV.Rebuild.
+From TrV Require Import Proofs.LoopsTie.
+Theorem C01_rebuild_step_is_code : forall e fuel m, js_has_conns (rb_cur m) = true ->
+  run_rebuild GR.gen_rebuild_body e fuel m = Some (rebuild_step (re_steps e) m).
+Proof. exact rebuild_step_tie. Qed.
+Print Assumptions C01_rebuild_step_is_code.
+Theorem C01_rebuild_is_code : forall steps start node acc egr fuel m0 legs ln ar er,
+  rebuild fuel steps start [] None = Some (legs, Some ln) ->
+  row_of node acc = Some ar -> row_of ln egr = Some er ->
+  option_map rb_journey
+    (run_rebuild GR.gen_rebuild_skel {| re_steps := steps; re_start := Some start; re_node := node; re_acc := acc; re_egr := egr |} fuel m0) =
+  Some (walk_step ar :: legs ++ [walk_step er]).
+Proof. exact rebuild_skel_journey. Qed.
+Print Assumptions C01_rebuild_is_code.
